@@ -51,6 +51,15 @@ def c04_job(chk, rng, i):
     if kind == 2:
         # rule set that never mentions NUL / high bytes; the input still contains them
         g.alpha = bytes(p["alpha"]) + b"\x00\x80\xff"
+    if kind != 2 and rng.chance(60):
+        # classes that list NUL explicitly, negated and not, at a seeded place in the rule list
+        a = rng.choice(p["alpha"])
+        for neg in ([True, False] if rng.chance(50) else [True]):
+            pat = ("ccl", neg, [("c", 0), ("c", a)] if neg else [("c", 0), ("r", a, min(a + 2, 127))])
+            if rng.chance(70):
+                pat = ("plus", pat)
+            case["rules"].insert(rng.below(len(case["rules"]) + 1),
+                                 {"scs": None, "bol": False, "pat": pat, "trail": None, "act": []})
     f = {"ret": 20, "less": 15, "unput": 10, "unput_alpha": b"a\x00b\x00", "input": 10}
     if any(r.get("bol") for r in case["rules"]):
         f = {"ret": 20}
